@@ -7,6 +7,7 @@ import (
 	"github.com/aperturerobotics/bifrost/crypto"
 	"github.com/aperturerobotics/bifrost/peer"
 	"github.com/aperturerobotics/bifrost/pubsub"
+	"github.com/aperturerobotics/bifrost/util/simhook"
 )
 
 // subscription implements the pubsub subscription handle.
@@ -66,6 +67,7 @@ func (s *subscription) AddHandler(cb func(m pubsub.Message)) func() {
 
 // Release releases the handle.
 func (s *subscription) Release() {
+	simhook.Yield("floodsub/release", s.channelID)
 	s.mtx.Lock()
 	for h := range s.handlers {
 		delete(s.handlers, h)
